@@ -1002,11 +1002,161 @@ fn grid_status_variants(out: &mut Vec<GridItem>, c: &[u8; 64], at: usize, me: u8
     }
 }
 
-/// kind 0: push starts and their completions; kind 1: pull leads; kind 2: own steps (root lists only).
+fn dir_between(from: usize, to: usize) -> Direction {
+    if to + 8 == from {
+        Direction::Up
+    } else if to == from + 1 {
+        Direction::Right
+    } else if to == from + 8 {
+        Direction::Down
+    } else {
+        Direction::Left
+    }
+}
+
+/// The capture clauses around every trap: (kind 3) first steps that displace an enemy piece - the single
+/// supporter of a trap piece pushed away in every direction, a victim pushed onto the trap with and without a
+/// friend beside it; (kind 4) first steps of the mover's own pieces - the single supporter walks away, a piece
+/// walks onto the trap alone / next to a friend, a piece steps off the trap or away from a supporter so that
+/// the enemy piece it drags behind it arrives on the trap or leaves a trap piece alone.
+fn grid_traps(out3: &mut Vec<GridItem>, out4: &mut Vec<GridItem>, rot: usize) {
+    let dirs = [Direction::Up, Direction::Right, Direction::Down, Direction::Left];
+    for me in 0..2u8 {
+        let gold = me == 0;
+        let en = 1 - me;
+        for (ti, &t) in TRAPS.iter().enumerate() {
+            for (ni, n) in neighbours(t).into_iter().enumerate() {
+                for v in 0..3usize {
+                    let k = ti + ni + v + rot;
+                    let tx = 1 + (k % 5) as u8; // piece on the trap (1..5)
+                    let tf = 1 + ((k / 2) % 4) as u8; // its supporter (1..4)
+                    // (a) the mover's piece on the trap, its only friend walks away (or not the only one)
+                    for &d in dirs.iter() {
+                        if let Some(dest) = crate::drivers::dest_of(n, d) {
+                            if dest == t {
+                                continue;
+                            }
+                            let mut c = [0u8; 64];
+                            c[t] = mine(tx, me);
+                            if !put_some(&mut c, n, me, &[tf + 1, tf]) {
+                                continue;
+                            }
+                            grid_emit(out4, &c, &[t, n, dest], gold, n, d);
+                            if let Some(n2) = neighbours(t).into_iter().find(|&q| q != n && q != dest) {
+                                let mut c2 = c;
+                                if put_some(&mut c2, n2, me, &[2, 3, 1]) {
+                                    grid_emit(out4, &c2, &[t, n, dest, n2], gold, n, d);
+                                }
+                            }
+                        }
+                    }
+                    // (b) a piece of the mover walks onto the empty trap: alone, or with a friend beside the trap
+                    {
+                        let mut c = [0u8; 64];
+                        if put_some(&mut c, n, me, &[tx]) {
+                            let d = dir_between(n, t);
+                            grid_emit(out4, &c, &[t, n], gold, n, d);
+                            for n2 in neighbours(t) {
+                                if n2 != n {
+                                    let mut c2 = c;
+                                    if put_some(&mut c2, n2, me, &[2, 3, 1]) {
+                                        grid_emit(out4, &c2, &[t, n, n2], gold, n, d);
+                                    }
+                                }
+                            }
+                        }
+                    }
+                    // (c) an enemy piece on the trap whose only supporter (on n) is pushed away in every direction,
+                    //     or dragged away behind a piece of the mover that steps off in every direction
+                    for m in neighbours(n) {
+                        if m == t {
+                            continue;
+                        }
+                        let mut c = [0u8; 64];
+                        c[t] = mine(tx, en);
+                        c[n] = mine(tf, en);
+                        if !put_some(&mut c, m, me, &[tf + 1, tf + 2]) {
+                            continue;
+                        }
+                        for &d in dirs.iter() {
+                            if let Some(dest) = crate::drivers::dest_of(n, d) {
+                                if dest != t && dest != m {
+                                    grid_emit(out3, &c, &[t, n, m, dest], gold, n, d);
+                                }
+                            }
+                            if let Some(dest) = crate::drivers::dest_of(m, d) {
+                                if dest != n && dest != t {
+                                    grid_emit(out4, &c, &[t, n, m, dest], gold, m, d);
+                                }
+                            }
+                        }
+                    }
+                    // (d) an enemy piece on n pushed onto the empty trap: alone, or with a friend of its own beside the trap
+                    for m in neighbours(n) {
+                        if m == t {
+                            continue;
+                        }
+                        let mut c = [0u8; 64];
+                        c[n] = mine(tf, en);
+                        if !put_some(&mut c, m, me, &[tf + 1, tf + 2]) {
+                            continue;
+                        }
+                        let d = dir_between(n, t);
+                        grid_emit(out3, &c, &[t, n, m], gold, n, d);
+                        for n2 in neighbours(t) {
+                            if n2 != n && n2 != m {
+                                let mut c2 = c;
+                                if put_some(&mut c2, n2, en, &[2, 1, 3]) {
+                                    grid_emit(out3, &c2, &[t, n, m, n2], gold, n, d);
+                                }
+                            }
+                        }
+                    }
+                    // (e) a piece of the mover stands on the trap (held by a friend) next to a weaker enemy piece on n and
+                    //     steps off: the enemy piece can be pulled onto the trap
+                    for g in neighbours(t) {
+                        if g == n {
+                            continue;
+                        }
+                        let mut c = [0u8; 64];
+                        c[t] = mine(tf + 1, me);
+                        c[n] = mine(tf, en);
+                        if !put_some(&mut c, g, me, &[2, 3, 1]) {
+                            continue;
+                        }
+                        for &d in dirs.iter() {
+                            if let Some(dest) = crate::drivers::dest_of(t, d) {
+                                if dest != n && dest != g {
+                                    grid_emit(out4, &c, &[t, n, g, dest], gold, t, d);
+                                    // ... and with a friend of the victim beside the trap
+                                    let mut c2 = c;
+                                    if let Some(q) = neighbours(n).into_iter().find(|&q| q != t && c2[q] == 0 && q != dest) {
+                                        if put_some(&mut c2, q, en, &[2, 1]) {
+                                            grid_emit(out4, &c2, &[t, n, g, dest, q], gold, t, d);
+                                        }
+                                    }
+                                }
+                            }
+                        }
+                    }
+                }
+            }
+        }
+    }
+}
+
+/// kind 0: push starts and their completions; kind 1: pull leads; kind 2: own steps (root lists only);
+/// kind 3 / 4: the capture clauses around every trap (first step displaces an enemy piece / is an own step).
 /// `rot` varies the piece types between runs.
 pub fn grid_positions(kind: usize, rot: usize) -> Vec<GridItem> {
     let dirs = [Direction::Up, Direction::Right, Direction::Down, Direction::Left];
     let mut out: Vec<GridItem> = Vec::new();
+    if kind >= 3 {
+        let mut o3 = Vec::new();
+        let mut o4 = Vec::new();
+        grid_traps(&mut o3, &mut o4, rot);
+        return if kind == 3 { o3 } else { o4 };
+    }
     for me in 0..2u8 {
         let gold = me == 0;
         for s in 0..64usize {
